@@ -2,6 +2,7 @@ package main
 
 import (
 	"fmt"
+	"go/constant"
 	"go/token"
 	"go/types"
 	"sort"
@@ -45,6 +46,13 @@ func (e *Engine) call(st *state, fr *frame, in ssa.CallInstruction) []callRes {
 func (e *Engine) callValue(st *state, fr *frame, in ssa.CallInstruction, fnv *Val, args []*Val, c *ssa.CallCommon) []callRes {
 	if c.IsInvoke() {
 		return e.invoke(st, fr, in, fnv, args, c)
+	}
+	// a function value converted to a named function type is still that function
+	for fnv.Op == "conv" && len(fnv.Args) == 1 && fnv.Type != nil {
+		if _, isSig := fnv.Type.Underlying().(*types.Signature); !isSig {
+			break
+		}
+		fnv = fnv.Args[0]
 	}
 	switch fnv.Op {
 	case "builtin":
@@ -136,6 +144,39 @@ func (e *Engine) invoke(st *state, fr *frame, in ssa.CallInstruction, recv *Val,
 			if m := e.P.Prog.LookupMethod(dt, c.Method.Pkg(), name); m != nil {
 				return e.callFunc(st, fr, in, m, append([]*Val{inner}, args...), nil)
 			}
+		}
+	}
+	// a ByteOrder handed in as a parameter (helper analysed on its own): same effects, the order stays symbolic
+	if it := types.TypeString(c.Value.Type(), nil); it == "encoding/binary.ByteOrder" || it == "encoding/binary.AppendByteOrder" {
+		if strings.HasPrefix(name, "PutUint") && len(args) == 2 {
+			var t types.Type
+			switch name {
+			case "PutUint16":
+				t = types.Typ[types.Uint16]
+			case "PutUint32":
+				t = types.Typ[types.Uint32]
+			case "PutUint64":
+				t = types.Typ[types.Uint64]
+			}
+			if t != nil {
+				sz, _ := fixedSize(t)
+				buf := bufferIn(args[0])
+				var bufv *Val
+				if buf != nil && len(buf.Args) > 0 {
+					bufv = buf.Args[0]
+				}
+				e.addEvent(st, fr, &Event{Kind: EvPanicSite, Mode: "putuint", Args: []*Val{args[0], mkInt(sz)}}, in)
+				e.addEvent(st, fr, &Event{Kind: EvPatch, Buf: bufv, IntType: t, Order: "param", Dst: args[0], Src: args[1], Size: mkInt(sz)}, in)
+				return one(st, nil)
+			}
+		}
+		if strings.HasPrefix(name, "Uint") || strings.HasPrefix(name, "AppendUint") || name == "String" {
+			var cargs []*Val
+			for _, a := range args {
+				cargs = append(cargs, e.contentOf(st, a))
+			}
+			res := c.Signature().Results()
+			return one(st, &Val{Op: "call", Name: "(encoding/binary.ByteOrder)." + name, Args: cargs, Type: res.At(0).Type()})
 		}
 	}
 	if !knownNonNil(st, recv) {
@@ -411,6 +452,11 @@ func outcomeSig(pre *state, o *outcome, startID int) string {
 				continue
 			}
 		}
+		// the buffer's spare capacity handed out by AvailableBuffer is scratch space, valid only until the next
+		// operation on the buffer: what a callee left there is not an observable result
+		if strings.Contains(k, "availbuf") {
+			continue
+		}
 		diffs = append(diffs, "c:"+k+"="+c.Key())
 	}
 	sort.Strings(diffs)
@@ -661,17 +707,65 @@ func (e *Engine) model(st *state, fr *frame, in ssa.CallInstruction, fn *ssa.Fun
 	case "(*bytes.Buffer).Write", "(*bytes.Buffer).WriteString":
 		src := e.contentOf(st, args[1])
 		// a number staged by hand: PutUintN into a local array, or AppendUintN(nil, v)
-		if ib := stagedInt(src); ib != nil {
-			sz, _ := fixedSize(ib.Type)
-			e.addEvent(st, fr, &Event{Kind: EvWriteInt, Buf: args[0], IntType: ib.Type, Order: ib.Name, Src: ib.Args[0], Size: mkInt(sz)}, in)
-			return one(st, tuple(mkInt(sz), mkNil(errT))), true
+		if ibs := stagedInts(src); ibs != nil {
+			total := int64(0)
+			for _, ib := range ibs {
+				sz, _ := fixedSize(ib.Type)
+				total += sz
+				ord := ib.Name
+				if sz == 1 {
+					ord = ""
+				}
+				e.addEvent(st, fr, &Event{Kind: EvWriteInt, Buf: args[0], IntType: ib.Type, Order: ord, Src: ib.Args[0], Size: mkInt(sz)}, in)
+			}
+			return one(st, tuple(mkInt(total), mkNil(errT))), true
 		}
 		n := mkLen(src)
 		e.addEvent(st, fr, &Event{Kind: EvWriteBytes, Buf: args[0], Src: src, Size: n}, in)
 		return one(st, tuple(n, mkNil(errT))), true
 	case "(*bytes.Buffer).WriteByte":
-		e.addEvent(st, fr, &Event{Kind: EvWriteBytes, Buf: args[0], Src: &Val{Op: "arraylit", Args: []*Val{args[1]}}, Size: mkInt(1)}, in)
+		e.addEvent(st, fr, &Event{Kind: EvWriteInt, Buf: args[0], IntType: types.Typ[types.Uint8], Order: "", Src: args[1], Size: mkInt(1)}, in)
 		return one(st, mkNil(errT)), true
+	case "(*bytes.Buffer).ReadByte":
+		u8 := types.Typ[types.Uint8]
+		st2 := st.clone()
+		if !st.exhausted[args[0].Key()] {
+			ev := e.addEvent(st, fr, &Event{Kind: EvReadInt, Buf: args[0], IntType: u8, Order: "", Size: mkInt(1)}, in)
+			ev2 := e.addEvent(st2, fr, &Event{Kind: EvReadInt, Buf: args[0], IntType: u8, Order: "", Size: mkInt(1), Failed: true}, in)
+			markExhausted(st2, args[0])
+			return []callRes{
+				{st: st, val: tuple(&Val{Op: "wire", ID: ev.ID, Type: u8}, mkNil(errT))},
+				{st: st2, val: tuple(mkConst(constant.MakeInt64(0), u8), nonnil(fmt.Sprintf("ReadByte#%d", ev2.ID)))},
+			}, true
+		}
+		ev2 := e.addEvent(st2, fr, &Event{Kind: EvReadInt, Buf: args[0], IntType: u8, Order: "", Size: mkInt(1), Failed: true}, in)
+		return []callRes{{st: st2, val: tuple(mkConst(constant.MakeInt64(0), u8), nonnil(fmt.Sprintf("ReadByte#%d", ev2.ID)))}}, true
+	case "(*bytes.Buffer).AvailableBuffer":
+		// an empty slice over the buffer's spare capacity, meant to be appended to and handed straight to Write
+		// (after Grow(n) with nothing appended since, its capacity is at least n: recorded as a second argument)
+		var spare *Val
+		for i := len(st.events) - 1; i >= 0; i-- {
+			x := st.events[i]
+			if x.Buf == nil || stripIface(x.Buf).Key() != stripIface(args[0]).Key() {
+				if x.Kind == EvAlt || x.Kind == EvRep || x.Kind == EvObj || x.Kind == EvCall {
+					break // something we do not look into happened in between
+				}
+				continue
+			}
+			if x.Kind == EvBufOther && x.Mode == "Grow" && len(x.Args) == 1 {
+				spare = x.Args[0]
+			}
+			if x.Kind == EvLen || x.Kind == EvBytes || (x.Kind == EvBufOther && observerMethods[x.Mode] && x.Mode != "Grow") {
+				continue
+			}
+			break
+		}
+		ev := e.addEvent(st, fr, &Event{Kind: EvBufOther, Mode: "AvailableBuffer", Buf: args[0]}, in)
+		av := &Val{Op: "availbuf", ID: ev.ID, Args: []*Val{args[0]}, Type: fn.Signature.Results().At(0).Type()}
+		if spare != nil {
+			av.Args = append(av.Args, spare)
+		}
+		return one(st, av), true
 	case "(*bytes.Buffer).Len":
 		ev := e.addEvent(st, fr, &Event{Kind: EvLen, Buf: args[0]}, in)
 		return one(st, &Val{Op: "buflen", ID: ev.ID, Args: []*Val{args[0]}, Type: intT}), true
@@ -679,8 +773,11 @@ func (e *Engine) model(st *state, fr *frame, in ssa.CallInstruction, fn *ssa.Fun
 		ev := e.addEvent(st, fr, &Event{Kind: EvBytes, Buf: args[0]}, in)
 		return one(st, &Val{Op: "bufbytes", ID: ev.ID, Args: []*Val{args[0]}, Type: fn.Signature.Results().At(0).Type()}), true
 	case "(*bytes.Buffer).Next":
-		ev := e.addEvent(st, fr, &Event{Kind: EvBufOther, Mode: "Next", Buf: args[0], Args: args[1:]}, in)
-		return one(st, &Val{Op: "bufnext", ID: ev.ID, Args: []*Val{args[0], args[1]}, Type: fn.Signature.Results().At(0).Type()}), true
+		// consumes min(n, Len()) bytes without any failure indication and returns a view of them (an alias of the
+		// buffer's storage); whether exactly n bytes were there is for the rules to establish from a dominating guard
+		ev := e.addEvent(st, fr, &Event{Kind: EvReadBytes, Mode: "Next", Buf: args[0], Size: args[1], Args: args[1:]}, in)
+		w := &Val{Op: "wire", ID: ev.ID, Type: fn.Signature.Results().At(0).Type(), Args: []*Val{args[1]}}
+		return one(st, &Val{Op: "bufnext", ID: ev.ID, Args: []*Val{args[0], args[1], w}, Type: fn.Signature.Results().At(0).Type()}), true
 	case "bytes.NewBuffer", "bytes.NewBufferString", "bytes.NewReader":
 		return one(st, &Val{Op: "call", Name: name, Args: []*Val{args[0]}, Type: fn.Signature.Results().At(0).Type()}), true
 	case "fmt.Errorf", "errors.New":
@@ -730,6 +827,25 @@ func (e *Engine) model(st *state, fr *frame, in ssa.CallInstruction, fn *ssa.Fun
 			e.addEvent(st, fr, &Event{Kind: EvPanicSite, Mode: "putuint", Args: []*Val{args[1], mkInt(sz)}}, in)
 			if buf == nil {
 				// staging a number in local memory (to be appended with buf.Write): remember what the bytes are
+				if base, off, total, ok := arraySegment(args[1], sz); ok {
+					seg := &Val{Op: "intbytes", Name: ord, ID: off, Args: []*Val{args[2]}, Type: it}
+					if off == 0 && total == int(sz) {
+						st.content[base.Key()] = seg
+					} else {
+						old := st.content[base.Key()]
+						stg := &Val{Op: "staged", Aux: total, Type: args[1].Type}
+						if old != nil && old.Op == "staged" {
+							for _, o := range old.Args {
+								if o.ID != off {
+									stg.Args = append(stg.Args, o)
+								}
+							}
+						}
+						stg.Args = append(stg.Args, seg)
+						st.content[base.Key()] = stg
+					}
+					return one(st, nil), true
+				}
 				if n, isC := affOf(mkLen(args[1])).IsConst(); isC && n == sz {
 					e.setContent(st, args[1], &Val{Op: "intbytes", Name: ord, Args: []*Val{args[2]}, Type: it})
 					return one(st, nil), true
@@ -764,6 +880,18 @@ func (e *Engine) model(st *state, fr *frame, in ssa.CallInstruction, fn *ssa.Fun
 					if r := addrRoot(stripCT(a)); r != nil && (r.Op == "param" || r.Op == "init" || r.Op == "global") {
 						e.addEvent(st, fr, &Event{Kind: EvStore, Dst: &Val{Op: "index", Args: []*Val{a, &Val{Op: "unknown", Name: "any"}}, Type: a.Type}, Src: &Val{Op: "call", Name: name, Args: []*Val{c}, Type: a.Type}}, in)
 					}
+				}
+			}
+		}
+		if name == "encoding/binary.Size" && len(args) == 1 {
+			v := stripIface(args[0])
+			if v.Type != nil {
+				t := v.Type
+				if p, ok := t.Underlying().(*types.Pointer); ok {
+					t = p.Elem()
+				}
+				if sz, ok := fixedSize(t); ok && sz > 0 {
+					return one(st, mkInt(sz)), true
 				}
 			}
 		}
@@ -975,35 +1103,103 @@ func markExhausted(st *state, buf *Val) {
 	st.exhausted[buf.Key()] = true
 }
 
-// stagedInt: the byte content is one fixed-size number rendered in a known byte order.
-func stagedInt(src *Val) *Val {
+// stagedInts: the byte content is a sequence of fixed-size numbers rendered in known byte orders – one number put
+// into a local array, an array tiled by several PutUintN calls, or a chain of AppendUintN calls starting from an
+// empty slice. nil when the content is anything else.
+func stagedInts(src *Val) []*Val {
 	src = stripCT(src)
 	if src == nil {
 		return nil
 	}
-	if src.Op == "intbytes" {
-		return src
-	}
-	if src.Op == "call" && len(src.Args) == 2 {
-		for _, ord := range []struct{ pfx, o string }{{"(encoding/binary.bigEndian).AppendUint", "BE"}, {"(encoding/binary.littleEndian).AppendUint", "LE"}} {
-			if strings.HasPrefix(src.Name, ord.pfx) {
-				first := stripCT(src.Args[0])
-				if !(first.IsNilConst() || (first.Op == "makeslice" && isZero(first.Args[0])) || (first.Op == "slice" && first.Args[2] != nil && isZero(first.Args[2]))) {
-					return nil
-				}
-				var it types.Type
-				switch strings.TrimPrefix(src.Name, ord.pfx) {
-				case "16":
-					it = types.Typ[types.Uint16]
-				case "32":
-					it = types.Typ[types.Uint32]
-				case "64":
-					it = types.Typ[types.Uint64]
-				default:
-					return nil
-				}
-				return &Val{Op: "intbytes", Name: ord.o, Args: []*Val{src.Args[1]}, Type: it}
+	switch src.Op {
+	case "intbytes":
+		return []*Val{src}
+	case "staged":
+		// segments (offset in ID) must tile [0, total) without gaps or overlaps
+		// (the array is a zero-initialised local: a gap of 1, 2, 4 or 8 bytes is a number-sized run of zero bytes, the
+		// usual placeholder for a field patched later; it has no byte order of its own – Order "zero")
+		segs := append([]*Val(nil), src.Args...)
+		sort.Slice(segs, func(i, j int) bool { return segs[i].ID < segs[j].ID })
+		total, ok := src.Aux.(int)
+		if !ok {
+			return nil
+		}
+		zeroSeg := func(off, n int) *Val {
+			var it types.Type
+			switch n {
+			case 1:
+				it = types.Typ[types.Uint8]
+			case 2:
+				it = types.Typ[types.Uint16]
+			case 4:
+				it = types.Typ[types.Uint32]
+			case 8:
+				it = types.Typ[types.Uint64]
+			default:
+				return nil
 			}
+			return &Val{Op: "intbytes", Name: "zero", ID: off, Args: []*Val{mkConst(constant.MakeInt64(0), it)}, Type: it}
+		}
+		var out []*Val
+		off := 0
+		for _, sg := range segs {
+			sz, _ := fixedSize(sg.Type)
+			if sg.ID < off {
+				return nil
+			}
+			if sg.ID > off {
+				z := zeroSeg(off, sg.ID-off)
+				if z == nil {
+					return nil
+				}
+				out = append(out, z)
+			}
+			out = append(out, sg)
+			off = sg.ID + int(sz)
+		}
+		if off > total {
+			return nil
+		}
+		if off < total {
+			z := zeroSeg(off, total-off)
+			if z == nil {
+				return nil
+			}
+			out = append(out, z)
+		}
+		return out
+	case "call":
+		if len(src.Args) != 2 {
+			return nil
+		}
+		for _, ord := range []struct{ pfx, o string }{{"(encoding/binary.bigEndian).AppendUint", "BE"}, {"(encoding/binary.littleEndian).AppendUint", "LE"}, {"(encoding/binary.ByteOrder).AppendUint", "param"}, {"(encoding/binary.AppendByteOrder).AppendUint", "param"}} {
+			if !strings.HasPrefix(src.Name, ord.pfx) {
+				continue
+			}
+			var it types.Type
+			switch strings.TrimPrefix(src.Name, ord.pfx) {
+			case "16":
+				it = types.Typ[types.Uint16]
+			case "32":
+				it = types.Typ[types.Uint32]
+			case "64":
+				it = types.Typ[types.Uint64]
+			default:
+				return nil
+			}
+			this := &Val{Op: "intbytes", Name: ord.o, Args: []*Val{src.Args[1]}, Type: it}
+			first := stripCT(src.Args[0])
+			if first.IsNilConst() || first.Op == "availbuf" || (first.Op == "makeslice" && isZero(first.Args[0])) || (first.Op == "slice" && first.Args[2] != nil && isZero(first.Args[2])) {
+				return []*Val{this}
+			}
+			if pre := stagedInts(first); pre != nil {
+				return append(pre, this)
+			}
+			return nil
+		}
+		if src.Name == "append" && len(src.Args) == 2 {
+			// append(staged, byte) is not tracked
+			return nil
 		}
 	}
 	return nil
@@ -1029,4 +1225,40 @@ func mutatesSliceArg(name string) bool {
 		return true
 	}
 	return false
+}
+
+// arraySegment: sl is arr[lo:hi] (or arr[:]) over a local fixed-size array with constant bounds spanning exactly width bytes.
+func arraySegment(sl *Val, width int64) (base *Val, off, total int, ok bool) {
+	sl = stripCT(sl)
+	if sl.Op != "slice" || sl.Args[0].Op != "alloc" {
+		return nil, 0, 0, false
+	}
+	base = sl.Args[0]
+	p, isP := base.Type.(*types.Pointer)
+	if !isP {
+		return nil, 0, 0, false
+	}
+	arr, isA := p.Elem().Underlying().(*types.Array)
+	if !isA {
+		return nil, 0, 0, false
+	}
+	lo, hi := int64(0), arr.Len()
+	if sl.Args[1] != nil {
+		v, isC := sl.Args[1].Int64()
+		if !isC {
+			return nil, 0, 0, false
+		}
+		lo = v
+	}
+	if sl.Args[2] != nil {
+		v, isC := sl.Args[2].Int64()
+		if !isC {
+			return nil, 0, 0, false
+		}
+		hi = v
+	}
+	if hi-lo < width || lo < 0 || hi > arr.Len() {
+		return nil, 0, 0, false
+	}
+	return base, int(lo), int(arr.Len()), true
 }
